@@ -39,3 +39,30 @@ def jopt (f : α → Json) : Option α → Json
   | some a => f a
 
 end Hap.Drv
+
+namespace Hap.Drv
+open Lean
+
+def answer (dispatch : Json → R Json) (line : String) : String :=
+  match Json.parse line with
+  | .error e => (Json.mkObj [("fatal", Json.str s!"parse: {e}")]).compress
+  | .ok j =>
+    match dispatch j with
+    | .ok r => r.compress
+    | .error e => (Json.mkObj [("fatal", Json.str e)]).compress
+
+partial def loop (dispatch : Json → R Json) (h : IO.FS.Stream) (out : IO.FS.Stream) : IO Unit := do
+  let line ← h.getLine
+  if line.isEmpty then return ()
+  let t := line.trimAscii.toString
+  if t.isEmpty then loop dispatch h out else
+  out.putStrLn (answer dispatch t)
+  loop dispatch h out
+
+/-- one JSON object per input line, one JSON object per output line -/
+def mainLoop (dispatch : Json → R Json) : IO Unit := do
+  let out ← IO.getStdout
+  loop dispatch (← IO.getStdin) out
+  out.flush
+
+end Hap.Drv
